@@ -166,8 +166,17 @@ def run_case(case):
     windows["same start and sample count, coarser spacing"] = t[0] + np.arange(N) * dts * float(rng.choice([2, 3]))
     windows["same start and sample count, finer spacing"] = t[0] + np.arange(N) * dts * 0.5
     windows["irregular times"] = np.sort(t[0] + rng.uniform(-0.5, 1.5, size=int(rng.integers(3, N + 3))) * N * dts)
+    windows["grid re-bound on the used object (same length, a few samples later)"] = t + int(rng.integers(1, 8)) * dts
     for name, tq in windows.items():
-        got = vals if name == "own grid" else np.array(n.with_times(tq).values)
+        if name.startswith("grid re-bound"):
+            # the object has been read; binding another grid to it must make it answer for that grid, and binding the old one again for the old one
+            n.times = tq
+            got = np.array(n.values)
+            n.times = t
+            back = np.array(n.values)
+            v.close("binding the original grid again reproduces the original values", float(np.max(np.abs(back - vals))) / scale if back.shape == vals.shape else float("inf"), 1e-12)
+        else:
+            got = vals if name == "own grid" else np.array(n.with_times(tq).values)
         if impl == "fft":
             model = fft_model(n, tq, t[0], dts, n_all)
             if nyq_in:
